@@ -161,7 +161,8 @@ def run_mc(tier: str) -> dict:
 
 def main(tier: str, only: dict | None = None) -> int:
     run = Run(PROP, tier, "model_checking")
-    mc = run_mc(tier) if only is None else {"states": 0, "transitions": 0}
+    mc = run_mc(tier) if only is None and not os.environ.get("C13_DEBUG_NOMC") \
+        else {"states": 0, "transitions": 0}
     if only is not None:
         records = [only["graph"]]
         # re-run the real analyses on a freshly built instance of the same case
@@ -219,6 +220,10 @@ def main(tier: str, only: dict | None = None) -> int:
         "where the documentation leaves a choice (derived shapes as predecessors, counting "
         "function bodies, type-based materialisation) both answers are accepted",
     ]
+    if os.environ.get("PTVERIF_KEYS_OUT"):        # development aid (mutation experiments)
+        import json as _json
+        with open(os.environ["PTVERIF_KEYS_OUT"], "w") as f:
+            _json.dump(sorted(v["key"] for v in run.violations), f)
     return run.finish()
 
 
